@@ -51,6 +51,28 @@ THEOREMS = [
     # blocks -> integer array of both; a non-integer anywhere in the tail -> not an integer array; numeric blocks ->
     # float array of both; string blocks -> every string whole)
     'C10.value_list_blocks_int', 'C10.value_list_tail_decides', 'C10.value_list_blocks_num', 'C10.value_list_blocks_str',
+    # round 5, source tie (Proofs/C10_Source.lean over Generated/ModelSource.lean, regenerated from /repo on every run):
+    # normalized_as as generated Lean expressions = the model's normForm; keys written (order, guards, packing by rank)
+    # by the model on ALL inputs = what the source's stores say; readers depend on exactly the keys the source looks
+    # up; writer keys = reader keys; defaults, pass-through keywords, setter tolerances
+    'C10.gen_normForm_eq_model', 'C10.normForm_length',
+    'C10.gen_ucModel_keys_eq_model', 'C10.gen_ucModelE_keys_eq_model', 'C10.gen_error_pack_eq_value_pack',
+    'C10.gen_ucModel_pack_eq_model', 'C10.gen_valueUnit_reads_only', 'C10.gen_uc_writer_keys_sub_reader_keys',
+    'C10.gen_uc_writer_keys_sub_valueUnit_reads',
+    'C10.gen_box_writer_keys_eq_reader_keys', 'C10.gen_boxModel_keys_eq_model', 'C10.gen_boxRead_reads_only',
+    'C10.gen_setter_atol_eq_model',
+    'C10.gen_atoms_writer_keys_eq_reader_keys', 'C10.gen_propModel_keys_eq_model', 'C10.gen_atomsModel_keys_eq_model',
+    'C10.gen_atoms_default_unit_eq_model', 'C10.gen_atoms_first_eq_model',
+    'C10.gen_systemModel_keys_eq_model', 'C10.gen_system_writer_keys_eq_reader_keys', 'C10.gen_system_scaled_eq_model',
+    'C10.gen_ec_writer_keys_eq_reader_keys', 'C10.gen_ecModel_keys_eq_model', 'C10.gen_norm_branches',
+    # round 5, end to end: dump -> text -> load at the API level (systemDumpLoad / atomsDumpLoad), every encoding x
+    # every call form, composed from the per-function theorems; the encoding step refuses exactly the other names
+    'C10.encode_refuses_iff', 'C10.system_dump_load_end_to_end', 'C10.atoms_dump_load_end_to_end',
+    'C10.system_dump_load_refuses_format',
+    # round 5: float arrays of any size incl. empty ones; the exact statement of the empty-array exception; the writers
+    # are injective (equal trees => equal content); the option handling of dump (dumpEncoding) = the generated chains
+    'C10.valueUnit_model_float', 'C10.valueUnit_model_empty', 'C10.system_model_injective', 'C10.value_model_injective',
+    'C10.gen_dumpEncoding_eq_model', 'C10.dumpEncoding_spec', 'C10.dumpEncoding_explicit', 'C10.dumpEncoding_encodes',
 ]
 PARTIAL = {
     'length-1 vector through XML text': "uc.value_unit alone reads a shape-(1,) array back from XML text as a "
@@ -58,8 +80,10 @@ PARTIAL = {
         "(atoms_model_roundtrip_xml, system_model_roundtrip_xml are exact)",
     'integer data written with a unit': 'come back as the same numbers in floating point (Data.castU): get_in_units '
         'is a true division; stated in the theorems, not hidden',
-    'empty arrays': 'the value theorems assume a non-empty array (prodNat shape != 0): numpy gives an empty list the '
-        'float dtype, so empty int/str arrays change dtype class',
+    'empty arrays': 'closed in round 5 for what can hold: valueUnit_model_float covers float arrays of every size incl. '
+        'the empty ones; valueUnit_model_empty states the exception exactly (an empty integer / string array is read '
+        'back as the empty FLOAT array of the same shape: numpy gives an empty list the float dtype); the other value '
+        'theorems keep the hypothesis prodNat shape != 0',
     'prop_unit subsets': 'Atoms: atoms_model_select covers every selection / order of properties (reading = '
         'constructing Atoms from the selected converted properties, defaults for a missing atype / pos). System: '
         'system_model_select(_xml) covers every selection that names atype and pos first and then any subset of the '
@@ -2712,6 +2736,79 @@ def correspond_nest(ctx, n):
             ctx.disagree('nest', f'numpy reshape{tuple(dims)} vs model unflatten: ' + '; '.join(out[:3]), {'line': line})
 
 
+FMT_NAMES = ['json', 'JSON', 'Json', 'jSoN', 'xml', 'XML', 'Xml', 'xmL', 'yaml', 'txt', 'js', 'jsonx', 'xmls', 'x', '',
+             'json ', 'model', 'dat']
+
+
+def correspond_fmt(ctx, n):
+    """the option handling of dump('system_model', f=, format=) against the model's `dumpEncoding`: which encoding
+    (the DataModelDict itself / JSON text / XML text / NOTHING) comes out for every spelling of the format name, given
+    or left to the extension of the path, for a returned value, a handle and a path."""
+    import io
+    import os
+    import tempfile
+    import atomman as am
+    from DataModelDict import DataModelDict as DM
+    rng = ctx.rng
+    s = am.System(atoms=am.Atoms(atype=[1, 2], pos=[[0., 0., 0.], [1., 1.5, 2.]]),
+                  box=am.Box(avect=[4., 0., 0.], bvect=[0.5, 3., 0.], cvect=[0., 0., 5.]), symbols=['Al', None])
+
+    def kind(text):
+        if text is None or text == '':
+            return None
+        t = text.lstrip()
+        try:
+            if t.startswith('{'):
+                json.loads(t)
+                return 'json'
+            if t.startswith('<'):
+                DM(t)
+                return 'xml'
+        except Exception:
+            pass
+        return 'unreadable: ' + text[:40]
+    tok = lambda x: '-' if x is None else ('.' if x == '' else x)
+    lines, reals = [], []
+    tmp = tempfile.mkdtemp(prefix='c10_fmt_')
+    try:
+        for i in range(n):
+            fm = rng.choice(FMT_NAMES) if rng.random() < 0.6 else None
+            tg = rng.choice(['returned', 'handle', 'path'])
+            ex = rng.choice(FMT_NAMES) if tg == 'path' else None
+            if (fm is not None and ' ' in fm) or (ex is not None and ' ' in ex):
+                fm = None if fm is not None and ' ' in fm else fm
+                ex = 'json' if ex is not None and ' ' in ex else ex
+            try:
+                if tg == 'returned':
+                    out = s.dump('system_model', format=fm) if fm is not None else s.dump('system_model')
+                    got = 'tree' if isinstance(out, DM) else kind(out)
+                elif tg == 'handle':
+                    h = io.StringIO()
+                    s.dump('system_model', f=h, **({'format': fm} if fm is not None else {}))
+                    got = kind(h.getvalue())
+                else:
+                    path = os.path.join(tmp, 'f%d' % i + ('.' + ex if ex else ''))
+                    s.dump('system_model', f=path, **({'format': fm} if fm is not None else {}))
+                    with open(path, encoding='UTF-8') as fh:
+                        got = kind(fh.read())
+            except Exception as e:  # an exception of the implementation is an observation
+                got = 'raises %s: %s' % (type(e).__name__, str(e)[:60])
+            lines.append('fmt %s %s %s' % (tok(fm), tg, tok(ex) if tg == 'path' else '-'))
+            reals.append(got)
+    finally:
+        import shutil
+        shutil.rmtree(tmp, ignore_errors=True)
+    for line, got, reply in zip(lines, reals, ctx.driver.ask_many(lines)):
+        ctx.stats.case('fmt', line, nontrivial=True)
+        if reply.startswith('err:'):
+            ctx.disagree('fmt', f'model refused {line}: {reply}', {'line': line})
+            continue
+        want = json.loads(reply)['enc']
+        if want != got:
+            ctx.disagree('fmt', f"dump('system_model') options [{line}]: implementation produced {got!r}, model "
+                                f'dumpEncoding says {want!r}', {'line': line})
+
+
 def _writable(c, rr):
     """was the object of the case constructed (so that there is something to serialise and to ask the model about)?"""
     if c['kind'] == 'ec':
@@ -2725,6 +2822,7 @@ def correspond(ctx):
     rng = ctx.rng
     N = ctx.n(1000, 12000)
     correspond_nest(ctx, ctx.n(150, 2000))
+    correspond_fmt(ctx, ctx.n(120, 1000))
     runs = []
     classes = {}
     outside = 0
@@ -3263,6 +3361,998 @@ def replay(ctx, payload):
                 oracle(ctx, c, rr)
     finally:
         restore_units()
+
+
+
+# ----------------------------------------------------------------------------------------
+# translator (round 5): the writers / readers of the five anchored files -> lean/Atomman/Generated/ModelSource.lean
+#
+# Everything below walks the `ast` of /repo's CURRENT source.  What is extracted: signatures and defaults, the keys
+# each writer stores (in order, with the guard of each store and how the value is packed), the keys each reader
+# looks up (in order of first access, with the default of `.get`), the `find` / `aslist` roots, which keyword is
+# handed through to which, the near-zero tolerances of the two setters, the branch structure of the argument
+# handling of `Atoms.model`, and - as Lean EXPRESSIONS - the 36 entries `normalized_as(cs)` hands to the `Cij` setter
+# (the `c_dict` formulas of each branch run through `ElasticConstants.__init__` and the crystal-system constructor it
+# dispatches to, by a partial evaluator with concrete control (which keywords are present) and symbolic values).
+# `Proofs/C10_Source.lean` proves each generated definition equal to the hand model's (`gen_..._eq_model`), or the
+# model's behaviour on ALL inputs equal to what the generated definition says (`..._keys`, `..._reads_only`).
+# A source whose statements do not have the expected form raises TranslationError (-> broken tie -> failing-input
+# search), never a silent pass.
+# ----------------------------------------------------------------------------------------
+GENERATED = ['ModelSource']
+
+
+def _TE(msg):
+    from ..translate import TranslationError
+    return TranslationError(msg)
+
+
+def _u_(node):
+    import ast
+    return ast.unparse(node)
+
+
+def _find_def(tree, name, cls=None, deco=None):
+    """the FunctionDef `name` (inside class `cls`; with decorator text `deco`, e.g. 'vects.setter' / 'property')."""
+    import ast
+    scope = tree.body
+    if cls is not None:
+        cs = [n for n in tree.body if isinstance(n, ast.ClassDef) and n.name == cls]
+        if len(cs) != 1:
+            raise _TE(f'class {cls} not found exactly once')
+        scope = cs[0].body
+    out = []
+    for n in scope:
+        if isinstance(n, ast.FunctionDef) and n.name == name:
+            decs = [_u_(d) for d in n.decorator_list]
+            if deco is None and not decs:
+                out.append(n)
+            elif deco is not None and decs == [deco]:
+                out.append(n)
+    if len(out) != 1:
+        raise _TE(f'{cls or ""}.{name} [{deco}] not found exactly once ({len(out)})')
+    return out[0]
+
+
+def _body(fn):
+    from ..translate import strip_doc
+    return strip_doc(fn.body)
+
+
+def _params(fn, skip_self=True):
+    """[(name, default text or None)] of the positional-or-keyword parameters."""
+    a = fn.args
+    if a.vararg is not None or a.kwonlyargs or a.posonlyargs:
+        raise _TE(f'{fn.name}: unexpected parameter kinds')
+    names = [x.arg for x in a.args]
+    defs = [None] * (len(names) - len(a.defaults)) + [_u_(d) for d in a.defaults]
+    ps = list(zip(names, defs))
+    if skip_self and ps and ps[0][0] == 'self':
+        ps = ps[1:]
+    return ps, (a.kwarg.arg if a.kwarg is not None else None)
+
+
+def _ls(s):
+    return '"' + s.replace('\\', '\\\\').replace('"', '\\"') + '"'
+
+
+def _lopt(s):
+    return 'none' if s is None else f'(some {_ls(s)})'
+
+
+def _llist(items):
+    return '[' + ', '.join(items) + ']'
+
+
+def _lparams(ps):
+    return _llist(f'({_ls(n)}, {_lopt(d)})' for n, d in ps)
+
+
+def _is_sub(node, base=None):
+    """`X['key']` -> (X node, key) else None."""
+    import ast
+    if isinstance(node, ast.Subscript) and isinstance(node.slice, ast.Constant) and isinstance(node.slice.value, str):
+        if base is None or _u_(node.value) == base:
+            return node.value, node.slice.value
+    return None
+
+
+def _expect(cond, msg):
+    if not cond:
+        raise _TE(msg)
+
+
+def _assign(st):
+    import ast
+    if isinstance(st, ast.Assign) and len(st.targets) == 1:
+        return st.targets[0], st.value
+    return None
+
+
+# ---- unitconvert.model ---------------------------------------------------------------------------------------------
+
+def _pack_kind(node, var):
+    t = _u_(node)
+    table = {f'{var}.item()': 'item', f'{var}.tolist()': 'tolist', f'{var}.flatten().tolist()': 'flat',
+             'list(shape)': 'shape'}
+    if t not in table:
+        raise _TE(f'uc.model: unknown packing {t}')
+    return table[t]
+
+
+def _tr_uc_model(tree):
+    import ast
+    fn = _find_def(tree, 'model')
+    ps, kw = _params(fn)
+    _expect([p[0] for p in ps] == ['value', 'units', 'error'] and kw is None, 'uc.model: parameters')
+    b = _body(fn)
+    _expect(len(b) == 6, f'uc.model: {len(b)} statements')
+    _expect(_u_(b[0]) == 'datamodel = DM()', 'uc.model: datamodel = DM()')
+    _expect(isinstance(b[1], ast.If) and _u_(b[1].test) == 'units is not None'
+            and [_u_(s) for s in b[1].body] == ['value = get_in_units(value, units)']
+            and [_u_(s) for s in b[1].orelse] == ['value = np.asarray(value)'], 'uc.model: value conversion')
+    _expect(isinstance(b[2], ast.If) and _u_(b[2].test) == 'error is not None' and not b[2].orelse
+            and [_u_(s) for s in b[2].body] == ['error = get_in_units(error, units)'], 'uc.model: error conversion')
+    # the rank chain
+    branches = []          # (rank or None for else, [(key, guard, pack)])
+    node = b[3]
+    while True:
+        _expect(isinstance(node, ast.If), 'uc.model: rank chain')
+        t = node.test
+        _expect(isinstance(t, ast.Compare) and _u_(t.left) == 'value.ndim' and len(t.ops) == 1
+                and isinstance(t.ops[0], ast.Eq) and isinstance(t.comparators[0], ast.Constant)
+                and isinstance(t.comparators[0].value, int), f'uc.model: rank test {_u_(t)}')
+        branches.append((t.comparators[0].value, _uc_branch(node.body)))
+        if len(node.orelse) == 1 and isinstance(node.orelse[0], ast.If):
+            node = node.orelse[0]
+            continue
+        branches.append((None, _uc_branch(node.orelse)))
+        break
+    _expect(isinstance(b[4], ast.If) and _u_(b[4].test) == 'units is not None' and not b[4].orelse
+            and len(b[4].body) == 1, 'uc.model: unit entry')
+    tgt, val = _assign(b[4].body[0]) or (None, None)
+    s = _is_sub(tgt, 'datamodel') if tgt is not None else None
+    _expect(s is not None and _u_(val) == 'units', 'uc.model: unit entry store')
+    unit_key = s[1]
+    _expect(_u_(b[5]) == 'return datamodel', 'uc.model: return')
+
+    def keys_expr(evs):
+        segs = []
+        for key, guard, _ in evs:
+            segs.append(f'[{_ls(key)}]' if guard is None else f'(if hasError then [{_ls(key)}] else [])')
+        return ' ++ '.join(segs) if segs else '[]'
+
+    def chain(f):
+        s = ''
+        for rank, evs in branches:
+            s += (f'if ndim = {rank} then {f(evs)} else ' if rank is not None else f(evs))
+        return s
+
+    def pack_of(which):
+        def f(evs):
+            ks = [p for k, g, p in evs if k == which]
+            _expect(len(ks) == 1, f'uc.model: {which} stored {len(ks)} times in a branch')
+            return _ls(ks[0])
+        return f
+
+    def has_shape(evs):
+        return 'true' if any(k == 'shape' for k, g, p in evs) else 'false'
+    L = []
+    L.append('/-! ### `unitconvert.model` -/')
+    L.append(f'def ucModelParams : List (String × Option String) := {_lparams(ps)}')
+    L.append('/-- the keys `uc.model` stores, in order, by rank of the value, `error is not None`, `units is not None`. -/')
+    L.append('def ucModelKeys (ndim : Nat) (hasError hasUnits : Bool) : List String :=\n  ('
+             + chain(keys_expr) + f') ++ (if hasUnits then [{_ls(unit_key)}] else [])')
+    L.append('/-- how the `value` entry is packed (`item` = `.item()`, `tolist` = `.tolist()`, `flat` = `.flatten().tolist()`). -/')
+    L.append('def ucModelPack (ndim : Nat) : String := ' + chain(pack_of('value')))
+    L.append('def ucModelPackError (ndim : Nat) : String := ' + chain(pack_of('error')))
+    L.append('/-- whether `list(value.shape)` is stored under `shape`. -/')
+    L.append('def ucModelStoresShape (ndim : Nat) : Bool := ' + chain(has_shape))
+    return L
+
+
+def _uc_branch(stmts):
+    import ast
+    evs = []
+    for st in stmts:
+        if _u_(st) == 'shape = value.shape':
+            continue
+        if isinstance(st, ast.If):
+            _expect(_u_(st.test) == 'error is not None' and not st.orelse and len(st.body) == 1,
+                    'uc.model: guard inside a rank branch')
+            tgt, val = _assign(st.body[0]) or (None, None)
+            s = _is_sub(tgt, 'datamodel') if tgt is not None else None
+            _expect(s is not None, 'uc.model: guarded store')
+            evs.append((s[1], 'error', _pack_kind(val, 'error')))
+            continue
+        tgt, val = _assign(st) or (None, None)
+        s = _is_sub(tgt, 'datamodel') if tgt is not None else None
+        _expect(s is not None, f'uc.model: statement {_u_(st)}')
+        evs.append((s[1], None, _pack_kind(val, 'value')))
+    return evs
+
+
+# ---- readers: the keys looked up in a term, in order of first access ------------------------------------------------
+
+def _reads(fn, var):
+    """(key, how) for every access to `var` in source order: 'get:<default>' / 'index' / 'in' / 'aslist' / 'find'."""
+    import ast
+    out = []
+
+    class V(ast.NodeVisitor):
+        def visit_Subscript(self, n):
+            s = _is_sub(n, var)
+            if s is not None and isinstance(n.ctx, ast.Load):
+                out.append((n.lineno, n.col_offset, s[1], 'index'))
+            self.generic_visit(n)
+
+        def visit_Call(self, n):
+            f = n.func
+            if isinstance(f, ast.Attribute) and _u_(f.value) == var and n.args and isinstance(n.args[0], ast.Constant) \
+                    and isinstance(n.args[0].value, str):
+                if f.attr == 'get':
+                    d = _u_(n.args[1]) if len(n.args) > 1 else 'None'
+                    out.append((n.lineno, n.col_offset, n.args[0].value, 'get:' + d))
+                elif f.attr in ('aslist', 'find', 'pop', 'finds'):
+                    out.append((n.lineno, n.col_offset, n.args[0].value, f.attr))
+            self.generic_visit(n)
+
+        def visit_Compare(self, n):
+            if len(n.ops) == 1 and isinstance(n.ops[0], (ast.In, ast.NotIn)) and _u_(n.comparators[0]) == var \
+                    and isinstance(n.left, ast.Constant) and isinstance(n.left.value, str):
+                out.append((n.lineno, n.col_offset, n.left.value, 'in'))
+            self.generic_visit(n)
+    for st in fn if isinstance(fn, list) else _body(fn):
+        V().visit(st)
+    out.sort()
+    return [(k, h) for _, _, k, h in out]
+
+
+def _first_keys(reads):
+    seen = []
+    for k, _ in reads:
+        if k not in seen:
+            seen.append(k)
+    return seen
+
+
+def _tr_value_unit(tree):
+    import ast
+    L = ['/-! ### `unitconvert.value_unit` / `error_unit` -/']
+    fv = _find_def(tree, 'value_unit')
+    fe = _find_def(tree, 'error_unit')
+    for fn in (fv, fe):
+        ps, kw = _params(fn)
+        _expect([p[0] for p in ps] == ['term'] and kw is None, f'{fn.name}: parameters')
+    b = _body(fv)
+    want = ["unit = term.get('unit', None)",
+            "if unit is None:\n    value = np.asarray(term['value'])\nelse:\n    value = set_in_units(term['value'], unit)",
+            "if 'shape' in term:\n    shape = tuple(term['shape'])\n    value = value.reshape(shape)",
+            'return value']
+    got = [_u_(s) for s in b]
+    _expect(got == want, 'value_unit: statements ' + repr(got))
+    # error_unit = value_unit with 'error' in the place of 'value'
+
+    class R(ast.NodeTransformer):
+        def visit_Name(self, n):
+            return ast.copy_location(ast.Name('value' if n.id == 'error' else n.id, n.ctx), n)
+
+        def visit_Constant(self, n):
+            return ast.copy_location(ast.Constant('value' if n.value == 'error' else n.value), n)
+    rv = _reads(fv, 'term')
+    re_ = _reads(fe, 'term')
+    import copy
+    gote = [_u_(ast.fix_missing_locations(R().visit(copy.deepcopy(s)))) for s in _body(fe)]
+    _expect(gote == want, 'error_unit is not value_unit on the error entry: ' + repr(gote))
+    L.append('/-- the keys `value_unit` looks up in the term, in order of first access. -/')
+    L.append('def valueUnitReads : List String := ' + _llist(_ls(k) for k in _first_keys(rv)))
+    L.append('def errorUnitReads : List String := ' + _llist(_ls(k) for k in _first_keys(re_)))
+    L.append('/-- every access `(key, how)`: `get:<default>`, `index` (KeyError when absent), `in`. -/')
+    L.append('def valueUnitAccess : List (String × String) := ' + _llist(f'({_ls(k)}, {_ls(h)})' for k, h in rv))
+    L.append('/-- `unit is None` -> `np.asarray(term[value])`, else `set_in_units(term[value], unit)`; `shape` in the '
+             'term -> `reshape(tuple(term[shape]))` (statement-for-statement match of both functions). -/')
+    L.append('def valueUnitShape : Bool := true')
+    # get_in_units / set_in_units: straight-line
+    fg = _find_def(tree, 'get_in_units')
+    fs = _find_def(tree, 'set_in_units')
+    _expect([_u_(s) for s in _body(fg)] == ['units = parse(units)', 'return np.asarray(value) / units'], 'get_in_units')
+    _expect([_u_(s) for s in _body(fs)] == ['units = parse(units)', 'return np.asarray(value) * units'], 'set_in_units')
+    L.append('/-- `get_in_units` = `np.asarray(value) / parse(units)`, `set_in_units` = `np.asarray(value) * parse(units)`. -/')
+    L.append('def getInUnitsOp : String := "/"')
+    L.append('def setInUnitsOp : String := "*"')
+    return L
+
+
+# ---- Box.model / vects setter ----------------------------------------------------------------------------------------
+
+def _model_halves(fn, who):
+    """the `if model is not None: <read> else: <write>` halves of a .model method."""
+    import ast
+    b = _body(fn)
+    _expect(len(b) == 1 and isinstance(b[0], ast.If) and _u_(b[0].test) == 'model is not None' and b[0].orelse,
+            f'{who}.model: if model is not None / else')
+    return b[0].body, b[0].orelse
+
+
+def _tr_box(tree):
+    import ast
+    L = ['/-! ### `Box.model`, `Box.set`, `vects` setter -/']
+    fn = _find_def(tree, 'model', 'Box')
+    ps, kw = _params(fn)
+    _expect([p[0] for p in ps] == ['model', 'length_unit'] and kw is None, 'Box.model: parameters')
+    rd, wr = _model_halves(fn, 'Box')
+    # writer
+    _expect(_u_(wr[0]) == 'model = DM()' and _u_(wr[-1]) == 'return model', 'Box.model: writer frame')
+    tgt, val = _assign(wr[1]) or (None, None)
+    s = _is_sub(tgt, 'model') if tgt is not None else None
+    _expect(s is not None and _u_(val) == 'DM()', 'Box.model: root')
+    root = s[1]
+    writes = []
+    for st in wr[2:-1]:
+        tgt, val = _assign(st) or (None, None)
+        s = _is_sub(tgt, f"model['{root}']") if tgt is not None else None
+        _expect(s is not None and isinstance(val, ast.Call) and _u_(val.func) == 'uc.model' and len(val.args) == 2
+                and not val.keywords and isinstance(val.args[0], ast.Attribute) and _u_(val.args[0].value) == 'self',
+                f'Box.model: store {_u_(st)}')
+        writes.append((s[1], val.args[0].attr, _u_(val.args[1])))
+    # reader
+    tgt, val = _assign(rd[0]) or (None, None)
+    _expect(tgt is not None and _u_(tgt) == 'model' and isinstance(val, ast.Call)
+            and _u_(val.func) == 'DM(model).find' and len(val.args) == 1 and isinstance(val.args[0], ast.Constant),
+            'Box.model: find')
+    rroot = val.args[0].value
+    reads = []
+    for st in rd[1:-1]:
+        tgt, val = _assign(st) or (None, None)
+        _expect(tgt is not None and isinstance(tgt, ast.Name) and isinstance(val, ast.Call)
+                and _u_(val.func) == 'uc.value_unit' and len(val.args) == 1 and _is_sub(val.args[0], 'model'),
+                f'Box.model: read {_u_(st)}')
+        reads.append((_is_sub(val.args[0], 'model')[1], tgt.id))
+    last = rd[-1]
+    _expect(isinstance(last, ast.Expr) and isinstance(last.value, ast.Call) and _u_(last.value.func) == 'self.set'
+            and not last.value.args, 'Box.model: self.set(...)')
+    setkw = {_u_(k.value): k.arg for k in last.value.keywords}
+    _expect(sorted(setkw) == sorted(v for _, v in reads), 'Box.model: set() keywords vs values read')
+    L.append(f'def boxModelParams : List (String × Option String) := {_lparams(ps)}')
+    L.append(f'def boxRoot : String := {_ls(root)}')
+    L.append('/-- (key, attribute of the Box, unit argument) of every `model[root][key] = uc.model(self.attr, unit)`. -/')
+    L.append('def boxWrites : List (String × String × String) := '
+             + _llist(f'({_ls(k)}, {_ls(a)}, {_ls(u)})' for k, a, u in writes))
+    L.append(f'def boxFind : String := {_ls(rroot)}')
+    L.append('/-- (key, keyword of `self.set`) of every `uc.value_unit(model[key])` of the reader. -/')
+    L.append('def boxReads : List (String × String) := ' + _llist(f'({_ls(k)}, {_ls(setkw[v])})' for k, v in reads))
+    # Box.set: the branch taken for the keywords of the reader
+    fset = _find_def(tree, 'set', 'Box')
+    ps2, kw2 = _params(fset)
+    _expect(ps2 == [] and kw2 == 'kwargs', 'Box.set: parameters')
+    have = set(setkw.values())
+    node = _body(fset)[0]
+    taken = None
+    order = []
+    while isinstance(node, ast.If):
+        t = node.test
+        txt = _u_(t)
+        order.append(txt)
+        if txt == 'len(kwargs) == 0':
+            ok = len(have) == 0
+        elif isinstance(t, ast.Compare) and len(t.ops) == 1 and isinstance(t.ops[0], ast.In) \
+                and _u_(t.comparators[0]) == 'kwargs' and isinstance(t.left, ast.Constant):
+            ok = t.left.value in have
+        else:
+            raise _TE(f'Box.set: test {txt}')
+        if ok and taken is None:
+            taken = [_u_(s) for s in node.body]
+        node = node.orelse[0] if len(node.orelse) == 1 else None
+    _expect(taken == ['self.set_vectors(**kwargs)'], f'Box.set: branch for the reader keywords: {taken}')
+    fsv = _find_def(tree, 'set_vectors', 'Box')
+    psv, _ = _params(fsv)
+    got = [_u_(s) for s in _body(fsv)]
+    _expect(got == ['if origin is None:\n    origin = [0.0, 0.0, 0.0]', 'self.vects = [avect, bvect, cvect]',
+                    'self.origin = origin'], 'Box.set_vectors: ' + repr(got))
+    L.append('/-- the tests of `Box.set` in order; the reader\'s keywords take the first one that holds. -/')
+    L.append('def boxSetTests : List String := ' + _llist(_ls(t) for t in order))
+    L.append('def boxSetTaken : String := ' + _ls(taken[0]))
+    L.append(f'def boxSetVectorsParams : List (String × Option String) := {_lparams(psv)}')
+    L.append('/-- `set_vectors`: `self.vects = [avect, bvect, cvect]` then `self.origin = origin`. -/')
+    L.append('def boxSetVectorsRows : List String := ["avect", "bvect", "cvect"]')
+    # vects setter
+    fv = _find_def(tree, 'vects', 'Box', 'vects.setter')
+    got = [_u_(s) for s in _body(fv)]
+    _expect(len(got) == 3 and got[0] == 'self.__vects[:] = value' and got[2] == 'self.__reciprocal_vects = None',
+            'vects setter: ' + repr(got))
+    st = _body(fv)[1]
+    tgt, val = _assign(st) or (None, None)
+    _expect(tgt is not None and _u_(val) == '0.0' and isinstance(tgt, ast.Subscript)
+            and _u_(tgt.value) == 'self.__vects' and isinstance(tgt.slice, ast.Call)
+            and _u_(tgt.slice.func) == 'np.isclose', 'vects setter: clean-up statement')
+    c = tgt.slice
+    _expect(len(c.args) == 2 and _u_(c.args[0]) == 'self.__vects / abs(self.__vects).max()' and _u_(c.args[1]) == '0.0'
+            and [k.arg for k in c.keywords] == ['atol'] and isinstance(c.keywords[0].value, ast.Constant),
+            'vects setter: np.isclose(self.__vects / abs(self.__vects).max(), 0.0, atol=...)')
+    L.append('/-- `self.__vects[np.isclose(self.__vects / abs(self.__vects).max(), 0.0, atol=…)] = 0.0`: the `atol`. -/')
+    L.append(f'def vectsAtol : Rat := {_lrat(c.keywords[0].value.value)}')
+    L.append('/-- the setter ends with `self.__reciprocal_vects = None`. -/')
+    L.append('def vectsSetterDropsKept : Bool := true')
+    return L
+
+
+def _lrat(x):
+    fr_ = Fraction(repr(x)) if isinstance(x, float) else Fraction(x)
+    return f'mkRat {fr_.numerator} {fr_.denominator}'
+
+
+# ---- Atoms.model / Atoms.__init__(model=) ---------------------------------------------------------------------------
+
+def _tr_atoms(tree):
+    import ast
+    L = ['/-! ### `Atoms.model`, `Atoms.__init__(model=…)` -/']
+    fn = _find_def(tree, 'model', 'Atoms')
+    ps, kw = _params(fn)
+    _expect([p[0] for p in ps] == ['prop_name', 'unit', 'prop_unit'] and kw is None, 'Atoms.model: parameters')
+    b = _body(fn)
+    got = [_u_(s) for s in b]
+    # (1) the argument handling
+    _expect(isinstance(b[0], ast.If) and _u_(b[0].test) == 'prop_unit is None', 'Atoms.model: if prop_unit is None')
+    inner = [_u_(s) for s in b[0].body]
+    _expect(inner == ['if prop_name is None:\n    prop_name = self.prop()',
+                      'if unit is None:\n    unit = [None for i in range(len(prop_name))]',
+                      "if len(unit) != len(prop_name):\n    raise ValueError('')",
+                      'prop_unit = {}',
+                      'for p, u in zip(prop_name, unit):\n    prop_unit[p] = u'], 'Atoms.model: list forms: ' + repr(inner))
+    _expect(len(b[0].orelse) == 1 and isinstance(b[0].orelse[0], ast.If) and not b[0].orelse[0].orelse
+            and _u_(b[0].orelse[0].test) == 'prop_name is not None or unit is not None'
+            and isinstance(b[0].orelse[0].body[0], ast.Raise), 'Atoms.model: refusal of prop_unit with lists')
+    # (2) default unit of pos
+    st = b[1]
+    _expect(isinstance(st, ast.If) and not st.orelse and isinstance(st.test, ast.BoolOp) and isinstance(st.test.op, ast.And)
+            and len(st.test.values) == 2, 'Atoms.model: default-unit statement')
+    t0, t1 = st.test.values
+    _expect(isinstance(t0, ast.Compare) and isinstance(t0.ops[0], ast.In) and isinstance(t0.left, ast.Constant)
+            and _u_(t0.comparators[0]) == 'prop_unit', 'Atoms.model: default-unit test')
+    dname = t0.left.value
+    _expect(_u_(t1) == f"prop_unit['{dname}'] is None", 'Atoms.model: default-unit test (None)')
+    bod = [_u_(s) for s in st.body]
+    _expect(len(bod) == 2 and bod[0] == 'prop_unit = dict(prop_unit)', 'Atoms.model: default unit set in a copy')
+    tgt, val = _assign(st.body[1])
+    _expect(_u_(tgt) == f"prop_unit['{dname}']" and isinstance(val, ast.Constant) and isinstance(val.value, str),
+            'Atoms.model: default unit')
+    dunit = val.value
+    # (3) the tree
+    _expect(got[2] == 'model = DM()' and got[-1] == 'return model', 'Atoms.model: frame')
+    tgt, val = _assign(b[3])
+    root = _is_sub(tgt, 'model')[1]
+    _expect(_u_(val) == 'DM()', 'Atoms.model: root')
+    tgt, val = _assign(b[4])
+    s = _is_sub(tgt, f"model['{root}']")
+    _expect(s is not None and _u_(val) == 'self.natoms', 'Atoms.model: natoms')
+    nat_key = s[1]
+    loop = b[5]
+    _expect(isinstance(loop, ast.For) and _u_(loop.target) == 'prop' and _u_(loop.iter) == 'prop_unit' and len(b) == 7,
+            'Atoms.model: property loop')
+    lb = loop.body
+    _expect(_u_(lb[0]) == 'unit = prop_unit.get(prop, None)' and _u_(lb[1]) == 'propmodel = DM()', 'Atoms.model: loop head')
+    pkeys = []
+    for st2 in lb[2:-1]:
+        tgt, val = _assign(st2)
+        s = _is_sub(tgt, 'propmodel')
+        _expect(s is not None, 'Atoms.model: propmodel store')
+        pkeys.append((s[1], _u_(val)))
+    last = lb[-1]
+    _expect(isinstance(last, ast.Expr) and isinstance(last.value, ast.Call)
+            and _u_(last.value.func) == f"model['{root}'].append" and len(last.value.args) == 2
+            and _u_(last.value.args[1]) == 'propmodel', 'Atoms.model: append')
+    app_key = last.value.args[0].value
+    _expect([v for _, v in pkeys] == ['prop', 'uc.model(self.prop(prop), unit)'], 'Atoms.model: propmodel values ' + repr(pkeys))
+    L.append(f'def atomsModelParams : List (String × Option String) := {_lparams(ps)}')
+    L.append('/-- the argument handling, slot by slot (statement-for-statement match): outer test; defaults of the lists; '
+             'refusals; how the dictionary is filled. -/')
+    L.append('def atomsCallOuter : String := "prop_unit is None"')
+    L.append('def atomsCallDefaults : List (String × String) := [("prop_name", "self.prop()"), ("unit", "[None for i in range(len(prop_name))]")]')
+    L.append('def atomsCallRefusals : List String := ["len(unit) != len(prop_name)", "prop_name is not None or unit is not None"]')
+    L.append('def atomsCallFill : String := "for p, u in zip(prop_name, unit): prop_unit[p] = u"')
+    L.append(f'/-- `if {dname!r} in prop_unit and prop_unit[{dname!r}] is None: … = {dunit!r}`. -/')
+    L.append(f'def atomsDefaultUnit : String × String := ({_ls(dname)}, {_ls(dunit)})')
+    L.append(f'def atomsRoot : String := {_ls(root)}')
+    L.append(f'def atomsCountKey : String := {_ls(nat_key)}')
+    L.append(f'def atomsAppendKey : String := {_ls(app_key)}')
+    L.append('def atomsPropKeys : List String := ' + _llist(_ls(k) for k, _ in pkeys))
+    # reader
+    fi = _find_def(tree, '__init__', 'Atoms')
+    psi, kwi = _params(fi)
+    bi = _body(fi)
+    _expect(isinstance(bi[0], ast.If) and _u_(bi[0].test) == 'model is not None', 'Atoms.__init__: model branch first')
+    mb = bi[0].body
+    _expect(isinstance(mb[0], ast.Try), 'Atoms.__init__: exclusivity check')
+    rest = [_u_(s) for s in mb[1:]]
+    _expect(len(rest) == 4 and rest[2] == 'prop = OrderedDict()', 'Atoms.__init__: model branch ' + repr(rest))
+    tgt, val = _assign(mb[1])
+    _expect(_u_(tgt) == 'model' and _u_(val.func) == 'DM(model).find', 'Atoms.__init__: find')
+    rroot = val.args[0].value
+    tgt, val = _assign(mb[2])
+    _expect(_u_(tgt) == 'natoms' and _is_sub(val, 'model'), 'Atoms.__init__: natoms')
+    rnat = _is_sub(val, 'model')[1]
+    loop = mb[4]
+    _expect(isinstance(loop, ast.For) and _u_(loop.target) == 'propmodel' and isinstance(loop.iter, ast.Call)
+            and _u_(loop.iter.func) == 'model.aslist' and len(loop.body) == 1, 'Atoms.__init__: property loop')
+    raslist = loop.iter.args[0].value
+    tgt, val = _assign(loop.body[0])
+    _expect(isinstance(tgt, ast.Subscript) and _u_(tgt.value) == 'prop' and _is_sub(tgt.slice, 'propmodel')
+            and isinstance(val, ast.Call) and _u_(val.func) == 'uc.value_unit' and _is_sub(val.args[0], 'propmodel'),
+            'Atoms.__init__: prop[propmodel[name]] = uc.value_unit(propmodel[data])')
+    rkeys = [_is_sub(tgt.slice, 'propmodel')[1], _is_sub(val.args[0], 'propmodel')[1]]
+    # prop handling: atype and pos are taken out first
+    _expect(isinstance(bi[1], ast.If) and _u_(bi[1].test) == 'prop is not None', 'Atoms.__init__: prop branch')
+    pb = [_u_(s) for s in bi[1].body[1:]]
+    _expect(pb == ["atype = prop.pop('atype', None)", "pos = prop.pop('pos', None)", 'kwargs = prop'],
+            'Atoms.__init__: prop division ' + repr(pb))
+    L.append(f'def atomsInitParams : List (String × Option String) := {_lparams(psi)}')
+    L.append(f'def atomsFind : String := {_ls(rroot)}')
+    L.append(f'def atomsReadCountKey : String := {_ls(rnat)}')
+    L.append(f'def atomsReadAslist : String := {_ls(raslist)}')
+    L.append('/-- `prop[propmodel[k0]] = uc.value_unit(propmodel[k1])`. -/')
+    L.append('def atomsReadPropKeys : List String := ' + _llist(_ls(k) for k in rkeys))
+    L.append('/-- `atype = prop.pop(\'atype\', None)`, `pos = prop.pop(\'pos\', None)`, `kwargs = prop`: taken out first. -/')
+    L.append('def atomsFirst : List String := ["atype", "pos"]')
+    # PropertyDict.__setitem__ broadcast chain
+    return L
+
+
+# ---- System.model / System.__init__(model=) / dump ------------------------------------------------------------------
+
+def _tr_system(tree, dump_tree):
+    import ast
+    L = ['/-! ### `System.model`, `System.__init__(model=…)`, `dump(\'system_model\')` -/']
+    fn = _find_def(tree, 'model', 'System')
+    ps, kw = _params(fn)
+    _expect([p[0] for p in ps] == ['box_unit', 'prop_name', 'unit', 'prop_unit'] and kw is None, 'System.model: parameters')
+    b = _body(fn)
+    _expect(_u_(b[0]) == 'model = DM()' and _u_(b[-1]) == 'return model', 'System.model: frame')
+    tgt, val = _assign(b[1])
+    root = _is_sub(tgt, 'model')[1]
+    _expect(_u_(val) == 'DM()', 'System.model: root')
+    R = f"model['{root}']"
+    events = []          # (key, kind, guard)
+    i = 2
+    extra = {}
+    while i < len(b) - 1:
+        st = b[i]
+        a = _assign(st)
+        if a is not None and _is_sub(a[0], R):
+            key = _is_sub(a[0], R)[1]
+            events.append((key, 'set', ''))
+            extra[key] = _u_(a[1])
+        elif isinstance(st, ast.Assign) and len(st.targets) == 2 and _is_sub(st.targets[0], R):
+            key = _is_sub(st.targets[0], R)[1]
+            events.append((key, 'set', ''))
+            extra[key] = _u_(st.value)
+            extra['alias'] = _u_(st.targets[1])
+        elif isinstance(st, ast.For) and len(st.body) == 1 and isinstance(st.body[0], ast.Expr) \
+                and isinstance(st.body[0].value, ast.Call) and _u_(st.body[0].value.func) == R + '.append':
+            c = st.body[0].value
+            _expect(_u_(c.args[1]) == _u_(st.target), 'System.model: append loop value')
+            events.append((c.args[0].value, 'append', ''))
+            extra[c.args[0].value] = _u_(st.iter)
+        elif _u_(st) == 'addmasses = False':
+            got = [_u_(b[i + 1]), _u_(b[i + 2].test) if isinstance(b[i + 2], ast.If) else '']
+            _expect(got == ['for mass in self.masses:\n    if mass is not None:\n        addmasses = True\n        break',
+                            'addmasses'], 'System.model: masses guard ' + repr(got))
+            g = b[i + 2]
+            _expect(not g.orelse and len(g.body) == 1 and isinstance(g.body[0], ast.For), 'System.model: masses loop')
+            lp = g.body[0]
+            c = lp.body[0].value
+            _expect(_u_(c.func) == R + '.append' and _u_(c.args[1]) == _u_(lp.target), 'System.model: masses append')
+            events.append((c.args[0].value, 'append', 'any-not-None'))
+            extra[c.args[0].value] = _u_(lp.iter)
+            i += 2
+        elif isinstance(st, ast.For) and _u_(st.iter) == "amodel.aslist('property')":
+            got = _u_(st)
+            want = ("for prop in amodel.aslist('property'):\n    if prop['data'].get('unit', None) == 'scaled':\n"
+                    "        prop['data'] = uc.model(self.box.position_cartesian_to_relative(uc.value_unit(prop['data'])), units='scaled')")
+            _expect(got == want, 'System.model: box-scaled rewrite ' + repr(got))
+            extra['scaled'] = 'yes'
+        else:
+            raise _TE('System.model: statement ' + _u_(st)[:80])
+        i += 1
+    _expect(extra.get('scaled') == 'yes', 'System.model: no box-scaled rewrite')
+    keys = [e[0] for e in events]
+    _expect(len(keys) == 5 and extra[keys[0]] == f"self.box.model(length_unit=box_unit)['{keys[0]}']"
+            and extra[keys[1]] == 'self.pbc.tolist()' and extra[keys[2]] == 'self.symbols'
+            and extra[keys[3]] == 'self.masses' and extra.get('alias') == 'amodel'
+            and extra[keys[4]] == f"self.atoms.model(prop_name=prop_name, unit=unit, prop_unit=prop_unit)['{keys[4]}']",
+            'System.model: entries ' + repr((keys, extra)))
+
+    def seg(e):
+        key, kind, guard = e
+        if kind == 'set':
+            return f'[{_ls(key)}]'
+        flag = 'hasMasses' if guard else 'hasSymbols'
+        return f'(if {flag} then [{_ls(key)}] else [])'
+    L.append(f'def systemModelParams : List (String × Option String) := {_lparams(ps)}')
+    L.append(f'def systemRoot : String := {_ls(root)}')
+    L.append('/-- the keys under the root in order; an `append` loop over no symbol writes nothing, the masses are '
+             'appended only when one of them is not `None`. -/')
+    L.append('def systemKeys (hasSymbols hasMasses : Bool) : List String := ' + ' ++ '.join(seg(e) for e in events))
+    L.append('def systemEntryKinds : List (String × String × String) := '
+             + _llist(f'({_ls(k)}, {_ls(kd)}, {_ls(g)})' for k, kd, g in events))
+    L.append(f'/-- `self.box.model(length_unit=box_unit)[…]`, `self.atoms.model(prop_name=…, unit=…, prop_unit=…)[…]`. -/')
+    L.append(f'def systemBoxKey : String := {_ls(keys[0])}')
+    L.append(f'def systemPbcKey : String := {_ls(keys[1])}')
+    L.append(f'def systemSymbolKey : String := {_ls(keys[2])}')
+    L.append(f'def systemMassKey : String := {_ls(keys[3])}')
+    L.append(f'def systemAtomsKey : String := {_ls(keys[4])}')
+    L.append('/-- the unit name whose properties are re-written box-relative, and the keys the rewrite goes by. -/')
+    L.append('def systemScaledUnit : String := "scaled"')
+    L.append('def systemScaledPath : List String := ["property", "data", "unit"]')
+    # reader
+    fi = _find_def(tree, '__init__', 'System')
+    psi, _ = _params(fi)
+    bi = _body(fi)
+    _expect(isinstance(bi[0], ast.If) and _u_(bi[0].test) == 'model is not None', 'System.__init__: model branch first')
+    mb = bi[0].body
+    got = [_u_(s) for s in mb[1:]]
+    _expect(isinstance(mb[0], ast.Try) and len(got) == 6, 'System.__init__: model branch')
+    tgt, val = _assign(mb[1])
+    _expect(_u_(tgt) == 'model' and _u_(val.func) == 'DM(model).find', 'System.__init__: find')
+    rroot = val.args[0].value
+    _expect(got[1:3] == ['box = Box(model=model)', 'atoms = Atoms(model=model)'], 'System.__init__: box / atoms')
+    rd = _reads(mb[3:], 'model')
+    want_tail = [f"if pbc is None:\n    pbc = model['{rd[0][0]}']",
+                 f"if symbols is None:\n    symbols = tuple(model.aslist('{rd[1][0]}'))",
+                 f"if masses is None:\n    masses = tuple(model.aslist('{rd[2][0]}'))"]
+    _expect(len(rd) == 3 and got[3:] == want_tail, 'System.__init__: pbc / symbols / masses ' + repr(got[3:]))
+    # the box-scaled loop further down
+    sc = [s for s in bi if isinstance(s, ast.If) and _u_(s.test) == 'model is not None'][1:]
+    _expect(len(sc) == 1, 'System.__init__: box-scaled block')
+    want = ("for prop in model['atoms'].aslist('property'):\n    if prop['data'].get('unit', None) == 'scaled':\n"
+            "        self.atoms.view[prop['name']] = self.box.position_relative_to_cartesian(self.atoms.view[prop['name']])")
+    _expect([_u_(s) for s in sc[0].body] == [want], 'System.__init__: box-scaled loop ' + repr([_u_(s) for s in sc[0].body]))
+    L.append(f'def systemInitParams : List (String × Option String) := {_lparams(psi)}')
+    L.append(f'def systemFind : String := {_ls(rroot)}')
+    L.append('/-- `(key, how)` of what the reader itself looks up under the root (the box and the atoms are read by '
+             '`Box(model=)` / `Atoms(model=)` from the same node). -/')
+    L.append('def systemReads : List (String × String) := ' + _llist(f'({_ls(k)}, {_ls(h)})' for k, h in rd))
+    L.append('def systemReadScaledPath : List String := ["atoms", "property", "data", "unit", "name"]')
+    # dump
+    fd = _find_def(dump_tree, 'dump')
+    psd, _ = _params(fd, skip_self=False)
+    bd = _body(fd)
+    tgt, val = _assign(bd[0])
+    _expect(_u_(tgt) == 'model' and isinstance(val, ast.Call) and _u_(val.func) == 'system.model' and not val.args,
+            'dump: model = system.model(…)')
+    passed = [(k.arg, _u_(k.value)) for k in val.keywords]
+    L.append(f'def dumpParams : List (String × Option String) := {_lparams(psd)}')
+    L.append('/-- `system.model(kw=value, …)` of `dump`. -/')
+    L.append('def dumpPasses : List (String × String) := ' + _llist(f'({_ls(a)}, {_ls(v)})' for a, v in passed))
+    L.append('/-- `self.atoms.model(kw=value, …)` of `System.model`. -/')
+    L.append('def systemPasses : List (String × String) := [("prop_name", "prop_name"), ("unit", "unit"), ("prop_unit", "prop_unit")]')
+    # format dispatch of dump
+    _expect(isinstance(bd[1], ast.If) and _u_(bd[1].test) == 'f is None' and len(bd) == 2, 'dump: if f is None')
+    ret = bd[1].body[0]
+    chain = []
+    node = ret
+    while isinstance(node, ast.If):
+        chain.append((_u_(node.test), _u_(node.body[0])))
+        node = node.orelse[0] if len(node.orelse) == 1 else None
+    _expect(chain == [('format is None', 'return model'), ("format.lower() == 'xml'", 'return model.xml(indent=indent)'),
+                      ("format.lower() == 'json'", 'return model.json(indent=indent)')], 'dump: format chain ' + repr(chain))
+    L.append('/-- the format chain of `dump` without a target: `(test, result)`. -/')
+    L.append('def dumpFormats : List (String × String) := ' + _llist(f'({_ls(a)}, {_ls(v)})' for a, v in chain))
+    # with a target: defaulting of `format`, then the same chain for a handle and for a path
+    eb = bd[1].orelse
+    _expect(len(eb) == 2 and isinstance(eb[0], ast.If) and _u_(eb[0].test) == 'format is None' and not eb[0].orelse
+            and len(eb[0].body) == 1 and isinstance(eb[0].body[0], ast.Try), 'dump: defaulting of format')
+    tr = eb[0].body[0]
+    _expect([_u_(x) for x in tr.body] == ['format = os.path.splitext(f)[1][1:]'] and len(tr.handlers) == 1
+            and tr.handlers[0].type is None and len(tr.handlers[0].body) == 1, 'dump: format from the extension')
+    tgt, val = _assign(tr.handlers[0].body[0])
+    _expect(_u_(tgt) == 'format' and isinstance(val, ast.Constant) and isinstance(val.value, str), 'dump: fallback format')
+    fallback = val.value
+    _expect(isinstance(eb[1], ast.If) and _u_(eb[1].test) == "hasattr(f, 'write')" and len(eb[1].body) == 1
+            and len(eb[1].orelse) == 1 and isinstance(eb[1].orelse[0], ast.With)
+            and _u_(eb[1].orelse[0].items[0]) == "open(f, 'w', encoding='UTF-8') as fp" and len(eb[1].orelse[0].body) == 1,
+            'dump: handle / path')
+
+    def chain_of(node, tail):
+        out = []
+        while isinstance(node, ast.If):
+            t = node.test
+            _expect(isinstance(t, ast.Compare) and len(t.ops) == 1 and isinstance(t.ops[0], ast.Eq)
+                    and _u_(t.left) == 'format.lower()' and isinstance(t.comparators[0], ast.Constant)
+                    and len(node.body) == 1 and isinstance(node.body[0], ast.Return)
+                    and isinstance(node.body[0].value, ast.Call) and isinstance(node.body[0].value.func, ast.Attribute)
+                    and _u_(node.body[0].value.func.value) == 'model', 'dump: chain entry ' + _u_(t))
+            c = node.body[0].value
+            _expect(not c.args, 'dump: positional codec arguments')
+            kws = sorted(f'{k.arg}={_u_(k.value)}' for k in c.keywords)
+            _expect(kws == tail, f'dump: arguments of model.{c.func.attr}: {kws}')
+            out.append((t.comparators[0].value, c.func.attr))
+            _expect(len(node.orelse) <= 1, 'dump: chain')
+            node = node.orelse[0] if node.orelse else None
+        _expect(node is None, 'dump: chain ends with something else')
+        return out
+    ch_ret = chain_of(ret.orelse[0], ['indent=indent'])
+    ch_h = chain_of(eb[1].body[0], ['fp=f', 'indent=indent'])
+    ch_p = chain_of(eb[1].orelse[0].body[0], ['fp=fp', 'indent=indent'])
+
+    def lchain(ch):
+        return ''.join(f'if format.toLower = {_ls(a)} then some {_ls(m)} else ' for a, m in ch) + 'none'
+    L.append('/-- the `if format.lower() == … : return model.<codec>(…)` chains as functions of the format name: value '
+             'returned, handle, path (`none` = the chain has no `else`: nothing is produced). -/')
+    L.append('def dumpChainReturned (format : String) : Option String := ' + lchain(ch_ret))
+    L.append('def dumpChainHandle (format : String) : Option String := ' + lchain(ch_h))
+    L.append('def dumpChainPath (format : String) : Option String := ' + lchain(ch_p))
+    L.append('/-- `format is None` with a target: `os.path.splitext(f)[1][1:]`, and this name when that raises (a handle). -/')
+    L.append(f'def dumpFallbackFormat : String := {_ls(fallback)}')
+    return L
+
+
+# ---- ElasticConstants.model, Cij setter, normalized_as ---------------------------------------------------------------
+
+class _Sym:
+    """partial evaluation of `ElasticConstants(**c_dict)`: concrete control (which keywords are there), symbolic values."""
+
+    def __init__(self, cls):
+        import ast
+        self.cls = cls
+        self.methods = {n.name: n for n in cls.body if isinstance(n, ast.FunctionDef) and not n.decorator_list}
+        self.used = set()
+
+    def expr(self, node, env, kw):
+        import ast
+        if isinstance(node, ast.Constant) and isinstance(node.value, (int, float)) and not isinstance(node.value, bool):
+            v = node.value
+            if isinstance(v, float):
+                _expect(v == int(v), f'non-integral literal {v}')
+                v = int(v)
+            return '0' if v == 0 else f'(({v} : Int) : K)'
+        if isinstance(node, ast.Name):
+            _expect(node.id in env, f'constructor: unknown name {node.id}')
+            return env[node.id]
+        if isinstance(node, ast.UnaryOp) and isinstance(node.op, ast.USub):
+            return f'(-{self.expr(node.operand, env, kw)})'
+        if isinstance(node, ast.BinOp) and isinstance(node.op, (ast.Add, ast.Sub, ast.Mult, ast.Div)):
+            op = {ast.Add: '+', ast.Sub: '-', ast.Mult: '*', ast.Div: '/'}[type(node.op)]
+            return f'({self.expr(node.left, env, kw)} {op} {self.expr(node.right, env, kw)})'
+        s = _is_sub(node, 'kwargs')
+        if s is not None:
+            _expect(s[1] in kw, f'constructor: kwargs[{s[1]!r}] absent')
+            self.used.add(s[1])
+            return kw[s[1]]
+        if isinstance(node, ast.Call) and _u_(node.func) == 'kwargs.pop' and len(node.args) == 1:
+            k = node.args[0].value
+            _expect(k in kw, f'constructor: kwargs.pop({k!r}) absent')
+            return kw.pop(k)
+        raise _TE('constructor: expression ' + _u_(node))
+
+    def test(self, node, kw):
+        import ast
+        if isinstance(node, ast.BoolOp):
+            vals = [self.test(v, kw) for v in node.values]
+            return all(vals) if isinstance(node.op, ast.And) else any(vals)
+        if isinstance(node, ast.Compare) and len(node.ops) == 1:
+            op = node.ops[0]
+            if isinstance(op, ast.In) and _u_(node.comparators[0]) == 'kwargs' and isinstance(node.left, ast.Constant):
+                return node.left.value in kw
+            if _u_(node.left) == 'len(kwargs)' and isinstance(node.comparators[0], ast.Constant):
+                n = node.comparators[0].value
+                return {ast.Eq: len(kw) == n, ast.GtE: len(kw) >= n, ast.LtE: len(kw) <= n,
+                        ast.Gt: len(kw) > n, ast.Lt: len(kw) < n, ast.NotEq: len(kw) != n}[type(op)]
+        if isinstance(node, ast.Compare) and len(node.ops) == 2 and _u_(node.left) == 'len(kwargs)':
+            raise _TE('constructor: chained comparison')
+        raise _TE('constructor: test ' + _u_(node))
+
+    def run(self, stmts, env, kw):
+        import ast
+        for st in stmts:
+            if isinstance(st, ast.Expr) and isinstance(st.value, ast.Constant):
+                continue
+            if isinstance(st, ast.Try):
+                self.run(st.body, env, kw)
+                continue
+            if isinstance(st, ast.Assert):
+                if _u_(st.test) == 'False':
+                    raise _TE('constructor: refuses the keywords of normalized_as')
+                _expect(self.test(st.test, kw), 'constructor: assertion fails for the keywords of normalized_as: ' + _u_(st.test))
+                continue
+            if isinstance(st, ast.If):
+                self.run(st.body if self.test(st.test, kw) else st.orelse, env, kw)
+                continue
+            a = _assign(st)
+            if a is not None:
+                tgt, val = a
+                if _u_(tgt) == 'kwargs' and _u_(val) == '{key: float(value) for key, value in kwargs.items()}':
+                    continue
+                if _u_(tgt) == 'self.Cij':
+                    _expect(isinstance(val, ast.Call) and _u_(val.func) == 'np.array' and len(val.args) == 1
+                            and isinstance(val.args[0], ast.List) and len(val.args[0].elts) == 6, 'constructor: Cij array')
+                    rows = []
+                    for r in val.args[0].elts:
+                        _expect(isinstance(r, ast.List) and len(r.elts) == 6, 'constructor: Cij row')
+                        rows += [self.expr(e, env, kw) for e in r.elts]
+                    env['__Cij__'] = rows
+                    continue
+                s = _is_sub(tgt, 'kwargs')
+                if s is not None:
+                    kw[s[1]] = self.expr(val, env, kw)
+                    continue
+                if isinstance(tgt, ast.Name):
+                    env[tgt.id] = self.expr(val, env, kw)
+                    continue
+            raise _TE('constructor: statement ' + _u_(st)[:80])
+
+
+def _init_dispatch(sym, kw):
+    """__init__ may nest an if inside a branch (6 / 7 keywords: 'C14' in kwargs)."""
+    import ast
+    kw0 = dict(kw)
+    node = _body(sym.methods['__init__'])[0]
+    while isinstance(node, ast.If):
+        if sym.test(node.test, kw0):
+            body = node.body
+            while len(body) == 1 and isinstance(body[0], ast.If):
+                body = body[0].body if sym.test(body[0].test, kw0) else body[0].orelse
+            body = [s for s in body if not isinstance(s, ast.Assert)]
+            _expect(len(body) == 1 and isinstance(body[0], ast.Expr) and isinstance(body[0].value, ast.Call)
+                    and isinstance(body[0].value.func, ast.Attribute) and _u_(body[0].value.func.value) == 'self'
+                    and _u_(body[0].value).endswith('(**kwargs)'), '__init__: dispatch ' + _u_(body[0])[:60])
+            return body[0].value.func.attr
+        _expect(len(node.orelse) == 1, '__init__: chain')
+        node = node.orelse[0]
+    raise _TE('__init__: refuses the keywords of normalized_as')
+
+
+def _tr_elastic(tree):
+    import ast
+    L = ['/-! ### `ElasticConstants.model`, `Cij` setter, `normalized_as` -/']
+    cls = [n for n in tree.body if isinstance(n, ast.ClassDef) and n.name == 'ElasticConstants']
+    _expect(len(cls) == 1, 'class ElasticConstants')
+    fn = _find_def(tree, 'model', 'ElasticConstants')
+    ps, kw = _params(fn)
+    _expect([p[0] for p in ps] == ['model', 'unit', 'crystal_system'] and kw is None, 'ElasticConstants.model: parameters')
+    rd, wr = _model_halves(fn, 'ElasticConstants')
+    got = [_u_(s) for s in wr]
+    _expect(len(got) == 5 and got[0] == 'normCij = self.normalized_as(crystal_system).Cij' and got[1] == 'model = DM()'
+            and got[4] == 'return model', 'ElasticConstants.model: writer ' + repr(got))
+    tgt, val = _assign(wr[2])
+    root = _is_sub(tgt, 'model')[1]
+    tgt, val = _assign(wr[3])
+    s = _is_sub(tgt, f"model['{root}']")
+    _expect(s is not None and _u_(val) == 'uc.model(normCij, unit)', 'ElasticConstants.model: Cij entry')
+    tgt, val = _assign(rd[0])
+    _expect(_u_(tgt) == 'model' and _u_(val.func) == 'DM(model).find', 'ElasticConstants.model: find')
+    rroot = val.args[0].value
+    _expect(isinstance(rd[1], ast.Try) and len(rd) == 2 and len(rd[1].body) == 1, 'ElasticConstants.model: reader')
+    tgt, val = _assign(rd[1].body[0])
+    _expect(_u_(tgt) == 'self.Cij' and _u_(val.func) == 'uc.value_unit' and _is_sub(val.args[0], 'model'),
+            'ElasticConstants.model: self.Cij = uc.value_unit(model[…])')
+    L.append(f'def ecModelParams : List (String × Option String) := {_lparams(ps)}')
+    L.append(f'def ecRoot : String := {_ls(root)}')
+    L.append(f'def ecKey : String := {_ls(s[1])}')
+    L.append(f'def ecFind : String := {_ls(rroot)}')
+    L.append(f'def ecReadKey : String := {_ls(_is_sub(val.args[0], "model")[1])}')
+    # Cij setter
+    fs = _find_def(tree, 'Cij', 'ElasticConstants', 'Cij.setter')
+    got = [_u_(s) for s in _body(fs)]
+    _expect(len(got) == 6 and got[0] == "value = np.array(value, dtype='float64')"
+            and got[1] == "assert value.shape == (6, 6), 'Cij must be 6x6'"
+            and got[2] == "assert value.max() > 0.0, 'Cij values not valid'"
+            and got[5] == 'self.__c_ij = value', 'Cij setter: ' + repr(got))
+    st = _body(fs)[3]
+    tgt, val = _assign(st)
+    c = tgt.slice
+    _expect(_u_(tgt.value) == 'value' and isinstance(c, ast.Call) and _u_(c.func) == 'np.isclose'
+            and _u_(c.args[0]) == 'value / value.max()' and _u_(c.args[1]) == '0.0' and [k.arg for k in c.keywords] == ['atol']
+            and _u_(val) == '0.0', 'Cij setter: clean-up')
+    zatol = c.keywords[0].value.value
+    lp = _body(fs)[4]
+    _expect(isinstance(lp, ast.For) and _u_(lp.iter) == 'range(6)' and _u_(lp.target) == 'i' and len(lp.body) == 1
+            and isinstance(lp.body[0], ast.For) and _u_(lp.body[0].iter) == 'range(i)' and _u_(lp.body[0].target) == 'j'
+            and len(lp.body[0].body) == 1 and isinstance(lp.body[0].body[0], ast.Assert), 'Cij setter: symmetry loop')
+    t = lp.body[0].body[0].test
+    _expect(isinstance(t, ast.Call) and _u_(t.func) == 'np.isclose' and _u_(t.args[0]) == 'value[i, j]'
+            and _u_(t.args[1]) == 'value[j, i]' and [k.arg for k in t.keywords] == ['atol'], 'Cij setter: symmetry test')
+    L.append('/-- `value[np.isclose(value / value.max(), 0.0, atol=…)] = 0.0`; `np.isclose(value[i,j], value[j,i], atol=…)` for `j < i < 6`. -/')
+    L.append(f'def cijZeroAtol : Rat := {_lrat(zatol)}')
+    L.append(f'def cijSymAtol : Rat := {_lrat(t.keywords[0].value.value)}')
+    L.append('def cijShape : List Nat := [6, 6]')
+    # normalized_as
+    fnz = _find_def(tree, 'normalized_as', 'ElasticConstants')
+    psn, _ = _params(fnz)
+    _expect([p[0] for p in psn] == ['crystal_system'], 'normalized_as: parameters')
+    b = _body(fnz)
+    _expect(len(b) == 1 and isinstance(b[0], ast.If) and _u_(b[0].test) == "crystal_system == 'triclinic'"
+            and [_u_(s) for s in b[0].body] == ['return ElasticConstants(Cij=self.Cij)'], 'normalized_as: triclinic hands self.Cij on')
+    eb = b[0].orelse
+    _expect(_u_(eb[0]) == 'c = self.Cij' and _u_(eb[1]) == 'c_dict = {}' and len(eb) == 4
+            and _u_(eb[3]) == 'return ElasticConstants(**c_dict)', 'normalized_as: frame ' + repr([_u_(s)[:40] for s in eb]))
+    sym = _Sym(cls[0])
+    node = eb[2]
+    branches = []
+    names = [f'a{i}{j}' for i in range(6) for j in range(6)]
+
+    def cexpr(n):
+        if isinstance(n, ast.Subscript) and _u_(n.value) == 'c' and isinstance(n.slice, ast.Tuple) and len(n.slice.elts) == 2 \
+                and all(isinstance(e, ast.Constant) and isinstance(e.value, int) and 0 <= e.value < 6 for e in n.slice.elts):
+            return f'a{n.slice.elts[0].value}{n.slice.elts[1].value}'
+        if isinstance(n, ast.Constant) and isinstance(n.value, int) and not isinstance(n.value, bool):
+            return f'(({n.value} : Int) : K)'
+        if isinstance(n, ast.BinOp) and isinstance(n.op, (ast.Add, ast.Sub, ast.Mult, ast.Div)):
+            op = {ast.Add: '+', ast.Sub: '-', ast.Mult: '*', ast.Div: '/'}[type(n.op)]
+            return f'({cexpr(n.left)} {op} {cexpr(n.right)})'
+        if isinstance(n, ast.UnaryOp) and isinstance(n.op, ast.USub):
+            return f'(-{cexpr(n.operand)})'
+        raise _TE('normalized_as: expression ' + _u_(n))
+    while isinstance(node, ast.If):
+        t = node.test
+        _expect(isinstance(t, ast.Compare) and _u_(t.left) == 'crystal_system' and isinstance(t.ops[0], ast.Eq)
+                and isinstance(t.comparators[0], ast.Constant), 'normalized_as: test ' + _u_(t))
+        cs = t.comparators[0].value
+        kwd = {}
+        hill = False
+        for st in node.body:
+            tgt, val = _assign(st) or (None, None)
+            s = _is_sub(tgt, 'c_dict') if tgt is not None else None
+            _expect(s is not None, 'normalized_as: statement ' + _u_(st))
+            if _u_(val) in ('self.shear()', 'self.bulk()'):
+                hill = True
+                kwd[s[1]] = {'self.shear()': 'mk.1', 'self.bulk()': 'mk.2'}[_u_(val)]
+            else:
+                kwd[s[1]] = cexpr(val)
+        meth = _init_dispatch(sym, kwd)
+        env = {}
+        kw2 = dict(kwd)
+        sym.used = set()
+        sym.run(_body(sym.methods[meth]), env, kw2)
+        _expect('__Cij__' in env and not (set(kw2) - sym.used), f'{meth}: keywords not used {sorted(set(kw2) - sym.used)}')
+        branches.append((cs, hill, meth, list(kwd), env['__Cij__']))
+        _expect(len(node.orelse) == 1, 'normalized_as: chain')
+        node = node.orelse[0]
+    _expect(isinstance(node, ast.Raise), 'normalized_as: unknown crystal system raises')
+    L.append('/-- (crystal system, constructor `ElasticConstants(**c_dict)` dispatches to, keywords of `c_dict` in order). -/')
+    L.append('def normBranches : List (String × String × List String) := '
+             + _llist(f'({_ls(cs)}, {_ls(m)}, {_llist(_ls(k) for k in ks)})' for cs, h, m, ks, _ in branches))
+    L.append('section')
+    L.append('variable {K : Type} [Add K] [Sub K] [Mul K] [Div K] [Neg K] [OfNat K 0] [IntCast K]')
+    L.append('set_option linter.unusedVariables false in')
+    L.append('/-- the 36 entries `normalized_as(cs)` hands to the `Cij` setter, as functions of the 36 entries `aij` of '
+             '`self.Cij` (`muK` = `self.shear()`, `self.bulk()`, `none` when they raise); `none` = the `ValueError` of an '
+             'unknown crystal system. -/')
+    L.append('def normEntries (muK : Option (K × K)) (cs : String) (' + ' '.join(names) + ' : K) : Option (List K) :=')
+    L.append('  if cs = "triclinic" then some [' + ', '.join(names) + ']')
+    for cs, hill, meth, ks, ent in branches:
+        rows = ',\n      '.join(', '.join(ent[6 * i:6 * i + 6]) for i in range(6))
+        if hill:
+            L.append(f'  else if cs = {_ls(cs)} then muK.map (fun mk => [\n      {rows}])')
+        else:
+            L.append(f'  else if cs = {_ls(cs)} then some [\n      {rows}]')
+    L.append('  else none')
+    L.append('end')
+    return L
+
+
+def translate():
+    import ast
+    trees = {}
+    for rel in ('atomman/unitconvert.py', 'atomman/core/Box.py', 'atomman/core/Atoms.py', 'atomman/core/System.py',
+                'atomman/core/ElasticConstants.py', 'atomman/dump/system_model/dump.py'):
+        try:
+            trees[rel] = ast.parse(cm.source(rel))
+        except SyntaxError as e:
+            raise _TE(f'{rel}: {e}')
+    out = ['/- GENERATED by harness/props/c10.py (translate) from atomman/unitconvert.py, core/Box.py, core/Atoms.py, '
+           'core/System.py,',
+           '   core/ElasticConstants.py, dump/system_model/dump.py — do not edit.  Keys written and read (order, guards, '
+           'packing), signatures and',
+           '   defaults, pass-through keywords, setter tolerances, and the entries of `normalized_as` as Lean expressions;',
+           '   `Proofs/C10_Source.lean` ties each definition to the hand model of `Atomman/C10.lean`. -/',
+           'import Atomman.C10', '', 'namespace Atomman.Generated.ModelSource', 'open Atomman Atomman.C10', '']
+    for part in (_tr_uc_model(trees['atomman/unitconvert.py']), _tr_value_unit(trees['atomman/unitconvert.py']),
+                 _tr_box(trees['atomman/core/Box.py']), _tr_atoms(trees['atomman/core/Atoms.py']),
+                 _tr_system(trees['atomman/core/System.py'], trees['atomman/dump/system_model/dump.py']),
+                 _tr_elastic(trees['atomman/core/ElasticConstants.py'])):
+        out += part + ['']
+    out.append('end Atomman.Generated.ModelSource')
+    return {'ModelSource': '\n'.join(out) + '\n'}
 
 
 MANIFEST = {
